@@ -382,7 +382,17 @@ class Analyser:
                 self.prov(s.value.value)
         elif isinstance(s, ast.Return):
             if s.value is not None:
-                self.prov(s.value)
+                p = self.prov(s.value)
+                want = RETURNS_FRESH.get(self.fn.name)
+                if want:
+                    comps = list(p[1]) if p[0] == "T" else None
+                    for i in want:
+                        q = comps[i] if comps is not None and i < len(comps) else U
+                        bad = self.roots_bad(q)
+                        self.ctr["store"] += 0
+                        name = "%s/return#%d/component-%d-fresh" % (self.qual, len([x for x in self.sites if "/return#" in x.name]) + 1, i)
+                        self.sites.append(Site(name, not bad, "returned component %d may alias %s (callers store into it)" % (i, ", ".join(sorted(bad))) if bad else "",
+                                               ast.unparse(s)[:90], s.lineno))
         elif isinstance(s, ast.If):
             self.prov(s.test)
             saved = dict(self.env)
@@ -452,6 +462,10 @@ class Analyser:
         self.walk(self.fn.body)
         return self.sites
 
+
+# return-provenance contracts that callers rely on (checked on the callee's own body):
+#   as_separate_validity(arr) -> (values: may alias arr, validity: FRESH)
+RETURNS_FRESH = {"as_separate_validity": [1]}
 
 # parameters handed over for writing by the fill/reduce protocol
 OWNED = {
